@@ -143,7 +143,7 @@ Proof. unfold ensure_created. now intros ->. Qed.
 (* 3. the storage primitives                                           *)
 (* ------------------------------------------------------------------ *)
 
-Definition entry_of (d : desc) (bytes : str) : entry := mkEntry (d_mt d) (d_dg d) (d_sz d) bytes.
+Definition entry_of (d : desc) (bytes : str) : entry := mkEntry (d_mt d) (d_dg d) (d_sz d) bytes false.
 
 Definition from_push (evs : list event) (e : entry) : Prop :=
   exists r d bytes, In (EvPush r d bytes) evs /\ e = entry_of d bytes.
@@ -185,9 +185,16 @@ Proof. intros (_ & _ & l & -> & _) St. now rewrite stored_app, St. Qed.
 
 Lemma same_key_entry_of bd d bytes : same_key bd d (entry_of d bytes) = true.
 Proof.
-  unfold same_key, entry_of. simpl. rewrite str_eqb_refl. destruct bd; simpl; auto.
+  unfold same_key, full_key, entry_of. simpl. rewrite str_eqb_refl. destruct bd; simpl; auto.
   - now rewrite str_eqb_refl, Z.eqb_refl.
   - apply Bool.eqb_reflx.
+  - now rewrite str_eqb_refl, Z.eqb_refl.
+Qed.
+
+Lemma push_dup_stored k st d : push_dup k st d = true -> stored k st d = true.
+Proof.
+  unfold push_dup, stored. intro E. apply existsb_exists in E as (e & I & P). apply existsb_exists.
+  exists e. split; auto. destruct k; auto. simpl in P. apply andb_true_iff in P as [_ P]. exact P.
 Qed.
 
 Lemma do_exists_spec tc fa s d s' r :
@@ -213,13 +220,14 @@ Proof.
   - intros [= <- <-]. split; [|split]; try discriminate.
     + split; [reflexivity|]. split; [simpl; lia|]. exists nil. split; [now rewrite app_nil_r | constructor].
     + intros _ E. subst fa. discriminate.
-  - destruct (stored (t_key tc) (s_store s) d) eqn:St; intros [= <- <-]; (split; [|split]);
+  - destruct (push_dup (t_key tc) (s_store s) d) eqn:St; intros [= <- <-]; (split; [|split]);
       try discriminate; auto.
     + split; [reflexivity|]. split; [simpl; lia|]. exists nil. split; [now rewrite app_nil_r | constructor].
+    + intros _. simpl. now apply push_dup_stored.
     + split; [reflexivity|]. split; [simpl; lia|]. exists [entry_of d bytes]. split; auto.
       constructor; [|constructor]. exists r, d, bytes. simpl; auto.
     + intros _. simpl. rewrite stored_app. unfold stored at 2. simpl.
-      change (mkEntry (d_mt d) (d_dg d) (d_sz d) bytes) with (entry_of d bytes).
+      change (mkEntry (d_mt d) (d_dg d) (d_sz d) bytes false) with (entry_of d bytes).
       rewrite same_key_entry_of. simpl. apply orb_true_r.
 Qed.
 
